@@ -373,7 +373,47 @@ impl Worker for W {
         let mut r = CaseResult::ok(h, false);
         let mut failures = 0;
         for (i, src) in steps.iter().enumerate() {
+            // The front end is C09's business: if it dies or panics on this (possibly mutated)
+            // text, that is not a statement about primitives and the VM after a failure
+            crate::worker::clear_key();
+            crate::worker::note_key(&json!({"not_this_property": true, "stage": "typecheck"}));
+            let pre = crate::worker::guarded(|| vm.typecheck_str(&format!("c06_h{}_tc", i), src, None).map(|_| ()).map_err(|e| e.to_string()));
+            crate::worker::clear_key();
+            match pre {
+                Ok(Ok(())) => {}
+                Ok(Err(_)) => {
+                    r.stat("compile_failures_in_histories", 1);
+                    continue;
+                }
+                Err(_) => {
+                    r.stat("histories_cut_by_compiler_panic", 1);
+                    std::mem::forget(vm);
+                    r.verdict = Verdict::Skip;
+                    return r;
+                }
+            }
+            let _ = crate::worker::take_panic();
             let out = crate::worker::guarded(|| run_program_budget(&vm, &format!("c06_h{}", i), src, 300_000));
+            // a panic inside the repository that was caught on the way (a primitive handed a value
+            // of the wrong shape by a miscompiled program) is an internal failure as well
+            if let (Ok(_), Some((loc, _))) = (&out, crate::worker::take_panic()) {
+                if loc.starts_with("/repo/") {
+                    r.stat("histories_cut_by_internal_failure", 1);
+                    std::mem::forget(vm);
+                    r.verdict = Verdict::Skip;
+                    return r;
+                }
+            }
+            // an internal failure (ice!: a miscompiled program handed a primitive a value of the
+            // wrong shape) is C01 / C02's finding; what the VM looks like afterwards is not judged
+            if let Ok(Outcome::Error(c, m)) = &out {
+                if c == "ice" || c == "shape" || m.contains("Please report an issue") {
+                    r.stat("histories_cut_by_internal_failure", 1);
+                    std::mem::forget(vm);
+                    r.verdict = Verdict::Skip;
+                    return r;
+                }
+            }
             match out {
                 Err((loc, msg)) => {
                     // a compiler / front-end panic is C01/C02/C09's finding; the history ends here
